@@ -212,6 +212,16 @@ class SimT(SimBase):
 
         def hdisconnect_legacy(sid):
             hdisconnect(sid, '?legacy')
+        # the reason handed to a legacy (sid)-only disconnect handler is
+        # invisible to it; the harness notes it at the dispatch boundary
+        self.true_reason = {}
+        real_trigger = self.server._trigger_event
+
+        def spy_trigger(event, *args, **kwargs):
+            if event == 'disconnect' and len(args) == 2:
+                self.true_reason.setdefault(args[0], args[1])
+            return real_trigger(event, *args, **kwargs)
+        self.server._trigger_event = spy_trigger
         self.server.on('connect', hconnect)
         self.server.on('message', hmessage)
         self.server.on('disconnect', hdisconnect_legacy
